@@ -142,7 +142,23 @@ def _decide(self: Session, cond) -> bool:
         return False
     run = self.run
     if run is None:
-        raise RuntimeError("symbolic branch outside explore()")
+        # a lifted predicate reached while the harness is still BUILDING its input (SymPy's constructors may call into the code under
+        # test, e.g. Abs(quantity)): decide as at a generic point -- every free variable gets a fixed, name-derived, non-zero rational
+        import zlib
+        from z3 import z3util
+        sub = []
+        for v in z3util.get_vars(cond):
+            h = zlib.crc32(str(v).encode())
+            if z3.is_real(v) or z3.is_int(v):
+                sub.append((v, z3.RealVal(f"{(h % 89) + 2}/{(h // 89) % 13 + 3}") if z3.is_real(v) else z3.IntVal((h % 89) + 2)))
+            elif z3.is_bool(v):
+                sub.append((v, z3.BoolVal(bool(h & 1))))
+        val = z3.simplify(z3.substitute(cond, *sub))
+        if z3.is_true(val):
+            return True
+        if z3.is_false(val):
+            return False
+        raise RuntimeError("symbolic branch outside explore() that a generic point does not decide")
     p = len(run.decisions)
     if p < len(run.prefix):
         choice = run.prefix[p]
@@ -541,6 +557,38 @@ class SymFloat:
     def __bool__(self):
         # truthiness of a number (`x or default`): non-zero
         return bool(SymBool(self.t != 0))
+
+    # the rest of the numeric protocol (a changed code path that uses one of these must stay executable)
+    def __floor__(self): return SymFloat(z3.ToReal(z3.ToInt(self.t)))
+    def __ceil__(self): return SymFloat(-z3.ToReal(z3.ToInt(-self.t)))
+    def __trunc__(self): return SymFloat(z3.If(self.t >= 0, z3.ToReal(z3.ToInt(self.t)), -z3.ToReal(z3.ToInt(-self.t))))
+    def __floordiv__(self, o): return SymFloat(z3.ToReal(z3.ToInt(self.t / SymFloat.lift(o))))
+    def __rfloordiv__(self, o): return SymFloat(z3.ToReal(z3.ToInt(SymFloat.lift(o) / self.t)))
+    def __mod__(self, o):
+        b = SymFloat.lift(o)
+        return SymFloat(self.t - b * z3.ToReal(z3.ToInt(self.t / b)))
+
+    def __pow__(self, o):
+        import fractions
+        if isinstance(o, int) and not isinstance(o, bool) and abs(o) <= 8:
+            r = z3.RealVal(1)
+            for _ in range(abs(o)):
+                r = r * self.t
+            return SymFloat(r if o >= 0 else 1 / r)
+        if isinstance(o, (float, fractions.Fraction)) and fractions.Fraction(o) == fractions.Fraction(1, 2):
+            y = S().enc.fresh("sqrt")
+            S().enc.side += [y >= 0, y * y == self.t]
+            return SymFloat(y)
+        raise LiftUnsupported(f"SymFloat ** {o!r}")
+
+    @property
+    def real(self): return self
+
+    @property
+    def imag(self): return SymFloat(z3.RealVal(0))
+
+    def conjugate(self): return self
+    def is_integer(self): return bool(SymBool(z3.ToReal(z3.ToInt(self.t)) == self.t))
 
     def __round__(self, ndigits=None):
         # round to ndigits decimals: nearest multiple of 10**-ndigits (ties upward; Python's ties-to-even differs on a null set)
